@@ -8,3 +8,5 @@ def regen(prop):
     for n in names:
         importlib.import_module("translate." + n).main()
 DEPS['C01'] += ['routes', 'smithy_ops']
+for _p in ['C04', 'C07', 'C10', 'C16']:
+    DEPS[_p] += ['routes', 'smithy_ops']
